@@ -120,3 +120,52 @@ package alg
 
 // validOK: the accept condition Valid implements (one value, then only white space).
 //@ pure func validOK(data ByteSlice) bool = len(data) > 0 && native.scanRet(string(data), 0) >= 0 && (forall k int :: native.scanEnd(string(data), 0) <= k && k < len(data) ==> isSpace(data[k]))
+
+// ---- map-key sorting (sort.go): memory safety and termination of the loops for every
+// slice and every key content (C07); only elements of kvs are permuted (C06).  That the
+// result is sorted is NOT proved (the heap-order argument needs induction over the heap).
+//@ func byteAt props C03
+//@   requires 0 <= p
+//@   ensures -1 <= result && result <= 255 && (result >= 0 ==> p < len(b)) && len(b) <= 140737488355328
+//@ func lessFrom props C03
+//@   requires 0 <= d
+//@   loop 0: invariant d <= i
+//@   loop 0: decreases l - i
+//@ func swap props C03
+//@   requires 0 <= a && a < len(kvs) && 0 <= b && b < len(kvs)
+//@   modifies kvs[_]
+//@ func siftDown props C03
+//@   requires 0 <= lo && lo <= hi && 0 <= first && first + hi <= len(kvs)
+//@   modifies kvs[_]
+//@   loop 0: invariant lo <= root && root <= hi
+//@   loop 0: decreases hi - root
+//@ func heapSort props C03
+//@   requires 0 <= a && a <= b && b <= len(kvs)
+//@   modifies kvs[_]
+//@   loop 0: invariant -1 <= i && i <= (hi - 1) / 2 && hi == b - a && first == a && lo == 0
+//@   loop 0: decreases i + 1
+//@   loop 1: invariant -1 <= i && i <= hi - 1 && hi == b - a && first == a && lo == 0
+//@   loop 1: decreases i + 1
+//@ func insertRadixSort props C03
+//@   requires 0 <= d
+//@   modifies kvs[_]
+//@   loop 0: invariant 1 <= i
+//@   loop 0: decreases len(kvs) - i
+//@   loop 1: invariant 0 <= j && j <= i && i < len(kvs)
+//@   loop 1: decreases j
+//@ func medianThree props C03
+//@   ensures result == i || result == j || result == k
+//@ func pivot props C03
+//@   requires 0 <= d && len(kvs) > 0
+//@   ensures -1 <= result && result <= 255 && (result >= 0 ==> d < 140737488355328)
+//@ func maxDepth props C03
+//@   requires 0 <= n && n <= 140737488355328
+//@   ensures 0 <= result
+//@   loop 0: invariant 0 <= i && 0 <= depth && depth + i <= n
+//@   loop 0: decreases i
+//@ func radixQsort props C03
+//@   requires 0 <= d && 0 <= maxDepth
+//@   modifies kvs[_]
+//@   loop 0: invariant 0 <= d && 0 <= maxDepth && base(kvs) == base(kvs0)
+//@   loop 1: invariant 0 <= lt && lt <= i && i <= gt && gt <= len(kvs) && len(kvs) > 11 && 0 <= d
+//@   loop 1: decreases gt - i
